@@ -483,6 +483,14 @@ _more('C09', _FTTH + [_FTOQ, _FTAD,
               Run('faults_disp_threads_p4', 'cl_threads_fault.cpp', {'DISP': 1}, exc=True, faults=1, preempt=4, covers=2, mt=True, native=(), budget_s=1700, bounds='C09 x C03 through an EventDispatcher, P<=4')])
 _more('C10', [Run('copymove_disp_filters_k3', 'copymove.cpp', {'KK': 3, 'OBJ': 1, 'FILTERS': None}, covers=12, optional_covers=(8, 9, 10), budget_s=1700, bounds='EventDispatcher with MixinFilter, K=3 (see quick)'),
               Run('copymove_queue_filters_k3', 'copymove.cpp', {'KK': 3, 'OBJ': 2, 'FILTERS': None}, covers=12, optional_covers=(8,), budget_s=1700, bounds='EventQueue with MixinFilter, K=3 (see quick)')])
+_more('C02', [Run('cl_nested_%s_a3' % tag, 'cl_nested.cpp', dict({'N0': 3, 'AA': 3, 'DD': 2, 'THREADING': thr}, **extra), covers=6, optional_covers=(5,), native=(), budget_s=1700,
+                  bounds='the nested programs (3 callbacks, A=3, depth <= 2) under %s' % what)
+              for (tag, thr, extra, what) in [('anycounter', 'VMutexOnlyThreading', {'ANYC': None}, 'the instrumented policy on a list with a symbolic addition history (1 <= c0 <= 2^32 - 65)'),
+                                              ('stdmutex', 'eventpp::MultipleThreading', {}, 'MultipleThreading (std::mutex via the pthread model)'),
+                                              ('spinlock', 'eventpp::GeneralThreading<eventpp::SpinLock>', {}, 'GeneralThreading<SpinLock>'),
+                                              ('single', 'eventpp::SingleThreading', {}, 'SingleThreading')]])
+_more('C03', [Run('cl_threads_s1_wrap_hooks_p3', 'cl_threads.cpp', {'TT': 2, 'SS': 1, 'WRAPC': None}, preempt=3, covers=4, optional_covers=(0, 1, 2, 3), mt=True, budget_s=1700, bounds=_TH % ('CallbackList whose generation counter is 0..1 additions before its wrap (C03 x C19)', 'instrumented policy', 2, 1, 3, _SP_HOOKS))])
+_more('C16', [_rm('cond_mask_cl_t', 0, 5, 4, 2, 'CallbackList', budget_s=1700), _rm('cond_mask_disp_t', 1, 5, 4, 2, 'EventDispatcher', budget_s=1700)])
 _more('C11', [_DQNV])
 _C11ST = [Run('q_listener_empty_%s' % tag, 'q_history.cpp', {'KK': 2, 'RA': 1, 'PAYLOAD': 0, 'THREADING': thr}, covers=11, optional_covers=(0, 1, 2, 3, 4, 5, 6, 7, 8, 9, 10, 11, 12),
               bounds='"the queue is seen as non-empty from inside a listener that process or processOne is running" under %s: C05 histories K=2, RA=1; every listener and predicate call also asks emptyQueue() (must be false while its own event is in dispatch)' % what)
